@@ -514,4 +514,16 @@ theorem abi_ffi_abi (p : Param) (t : Ty) (fuel : Nat) (hsh : Shape p.components 
       ⟨rfl, rfl, rfl⟩
     rw [hdet.1, hdet.2.1, hdet.2.2, param_eta]
 
+/-! ### non-vacuity: concrete inputs on which the hypotheses hold (evaluated by the kernel) -/
+/-- non-vacuity of `abi_ffi_abi`: `tuple[] pt` with members `uint256 x`, `string y` meets the hypotheses (any table
+    entries for the two leaves), with fuel 7 -/
+example (u s : ElemInfo) :
+    let p : Param := .mk "pt" "tuple[]" false "" [.mk "x" "uint256" false "" [], .mk "y" "string" false "" []]
+    let t : Ty := .darr (.tuple ["x", "y"] [.elem u "256" 256 0, .elem s "" 0 0])
+    Shape p.components t ∧ arrayDepth t ≤ 64 ∧ need t ≤ 7 := by
+  refine ⟨?_, ?_, ?_⟩
+  · simp [Shape, ShapeL, Param.components, Param.name, arrayDepth]
+  · simp [arrayDepth]
+  · simp [need, needMax]
+
 end FFS.Props.C20
